@@ -16,6 +16,7 @@ pub mod c07;
 pub mod rules;
 pub mod c10;
 pub mod c12;
+pub mod c14;
 pub mod c16;
 pub mod c18;
 pub mod pat;
